@@ -19,7 +19,7 @@ func init() {
 		Level: "other",
 		Explanation: "A panic-site obligation ledger over COMPILE ∪ EVAL ∪ {IndentByParentheses}: every instruction that can panic — slice/string/array index, slice expression, single-result type assertion, integer / and %, == on two interface values, make with a non-constant size, explicit panic, call of a function value taken from a table — is an obligation with exactly one verdict: " +
 			"(1) discharged by a sound local rule: a forward must-dataflow of guard facts (index < len(S), len(S) >= k, v >= 0, emptiness tests, switch on len, loop and range headers, the hasNext predicate inlined as a summary, HasPrefix with a constant, same-variable re-loads with no intervening write), kind tests before value.(string) using the node-kind invariants (R-KIND of C01), comma-ok forms, divisor != 0, one interface operand of comparable static type, sizes that are len(x) or len(x)+c or guarded non-negative; " +
-			"(2) invariant-governed: the index is a compile-time table value (nodes[i], os[osTop+k], parentIdx[i], f[prev], the four children of an `if` node …) in Eval, TryEval, calAndSet*, Dump*, DumpTable*, parentNode, reportEvent, calculateNodeCosts: enumerated, listed with the invariant's name, NOT decided, never an alarm; (3) frozen-table: sites in input-facing code whose safety needs arithmetic the dataflow does not do, confirmed by reading, keyed by rule + function + operand shape with one line of reason each; (4) violated: an input-facing obligation that is neither discharged nor in the table — this is what a deleted guard produces. " +
+			"(2) invariant-governed (only table-based sites; a string indexed or cut in these functions is text, not a table, and needs its own proof — seeded change C06-k): the index is a compile-time table value (nodes[i], os[osTop+k], parentIdx[i], f[prev], the four children of an `if` node …) in Eval, TryEval, calAndSet*, Dump*, DumpTable*, parentNode, reportEvent, calculateNodeCosts: enumerated, listed with the invariant's name, NOT decided, never an alarm; (3) frozen-table: sites in input-facing code whose safety needs arithmetic the dataflow does not do, confirmed by reading, keyed by rule + function + operand shape with one line of reason each; (4) violated: an input-facing obligation that is neither discharged nor in the table — this is what a deleted guard produces. " +
 			"(R-TYPEERR / R-ARITY / R-IFACEEQ / R-DIV0 as in C18) for all built-ins; (R-NILNIL) at every return of Compile either the error is non-nil or the *Expr is a fresh allocation; (R-NOFAIL) no panic, os.Exit, log.Fatal, go statement in the closure and optimizers have no failure channel; (R-STATELESS-TABLE) as in C10. " +
 			"NOT decided: termination of the lexer/parser loops and recursion, 'positions strictly increasing' (depends on scIdx > i, a table value), blocking on an unconsumed EventChan (a precondition of event mode), everything in class 2. (R-ERRDROP) no return of the API closure yields a nil error on the non-nil edge of an error obtained from a call: a swallowed parser error is how a nil node reaches a dereference, which the ledger itself does not model. Round 2: R-ERRDROP also requires every error result of a call in the API closure to be looked at; the comparability guard of eq/ne must be a value-level walk (R-IFACEEQ, D17); R-DIREQ shared from C02.",
 		Run:       runC06,
@@ -259,6 +259,8 @@ var _ = sort.Strings
 var _ = token.ADD
 
 var c06Witnesses = []Witness{
+	{Name: "slice-fetcher-get-without-lower-bound", Rule: "R-PANIC", Doc: "D18 returns (the tree as found: a negative key, e.g. UndefinedVarKey, indexes the slice)", Edits: []Edit{
+		{File: "variable.go", Old: "func (s SliceVarFetcher) Get(key VariableKey, _ string) (Value, error) {\n	if key < 0 || int(key) >= len(s) {", New: "func (s SliceVarFetcher) Get(key VariableKey, _ string) (Value, error) {\n	if int(key) >= len(s) {"}}},
 	{Name: "dumptable-label-cut-scans-forward-without-bound", Rule: "R-PANIC", Doc: "seeded change C06-k: text handled inside an invariant-governed function is not governed by the table invariants, and s[i] on a string is an obligation", Edits: []Edit{
 		{File: "util.go", Old: "					res = res[:width-1] + \"…\"", New: "					cut := width - 1\n					for res[cut]&0xC0 == 0x80 {\n						cut++\n					}\n					res = res[:cut] + \"…\""}}},
 	{Name: "dumptable-label-cut-one-past-width", Rule: "R-PANIC", Edits: []Edit{
